@@ -56,6 +56,9 @@ FAMILIES = {
     ],
     'C11': [
         {'family': 'cut', 'knobs': {}, 'quick': 500, 'thorough': 8000},
+        # the loss follows a REQUEST / a terminal frame in the same read (handler just invoked, tasks created but not yet run)
+        {'family': 'cut', 'knobs': {'p_request_race': 0.6, 'p_terminal_race': 1.0, 'faults': ['eof', 'eof', 'error']}, 'quick': 300,
+         'thorough': 4000, 'first': 200000},
     ],
     'C12': [
         {'family': 'hostile', 'knobs': {}, 'quick': 500, 'thorough': 8000},
